@@ -494,6 +494,7 @@ func init() {
 			complete := true
 			eval := func(c c03Case, nontrivial bool) {
 				r.Evals.Add(1)
+				r.Journal(c)
 				r.Transitions.Add(1)
 				r.Traces.Add(int64(len(c.Locs)))
 				ok, sig, detail := c03Eval(c)
